@@ -180,3 +180,65 @@ def run(ctx):
     # ---------------- R16.3 (path-sensitive dependences on the MIR; independent of how the merge / the consumer are written)
     r3 = ctx.rule('R16.3', 'slice: absolute end stored, end-start taken, nested slices merged by adding the inner start')
     slice_dimensions(ctx, r3)
+
+    # ---------------- R16.5
+    lazy_library(ctx)
+
+
+def lazy_library(ctx):
+    """R16.5: library functions written in the language that take a generator and return a generator stay lazy in it: their body
+    applies no *consuming* function (one that, by the book, maps a Generator to something that is not a Generator: len, reduce,
+    to_array, last, ...) to the generator parameter.  Lexical rule over the stdlib text (the language's own source)."""
+    import os
+    r5 = ctx.rule('R16.5', 'generator-to-generator library functions apply no consuming function to their generator parameter')
+    path = os.path.join(ctx.repo, 'src/builtin/include.rs')
+    inc = open(path).read() if os.path.exists(path) else ''
+    bookp = os.path.join(ctx.repo, 'book/src/std/generator.md')
+    book = open(bookp).read() if os.path.exists(bookp) else ''
+    consuming = set()
+
+    def signatures(text, head):
+        """(name, parameter text, result text) of every `fn name<..>(params) -> result` after `head`, by parenthesis matching"""
+        for m in re.finditer(head + r'(\w+)\s*(?:<[^>(]*>)?\s*\(', text):
+            i, d = m.end(), 1
+            while d and i < len(text):
+                d += {'(': 1, ')': -1}.get(text[i], 0)
+                i += 1
+            params = text[m.end():i - 1]
+            r = re.match(r'\s*->\s*([\w<]+)', text[i:])
+            yield m.group(1), params, (r.group(1) if r else ''), m.start(), i
+    for name, params, res, _, _ in signatures(book, r'^## fn `'.replace('^', '(?m)^')):
+        if re.match(r'\s*\w+\s*:\s*Generator<', params) and not res.startswith('Generator'):
+            consuming.add(name)
+    # consumers defined in the library text itself (sum, mean, join, ...): Generator in, non-Generator out
+    for name, params, res, _, _ in signatures(inc, r'fn\s+'):
+        if re.match(r'\s*\w+\s*:\s*Generator<', params) and res and not res.startswith('Generator'):
+            consuming.add(name)
+    if len(consuming) < 8:
+        r5.fail('anchor/consuming-functions', 'book/src/std/generator.md', 'expected the documented consuming generator functions (len, reduce, to_array, ...), found %s' % sorted(consuming))
+    n = 0
+    for name, params, res, start, end in signatures(inc, r'fn\s+'):
+        if not res.startswith('Generator'):
+            continue
+        gens = [p.split(':')[0].strip() for p in re.split(r',(?![^<(]*[>)])', params) if re.match(r'\s*\w+\s*:\s*Generator<', p)]
+        if not gens:
+            continue
+        i = inc.index('{', end)
+        s, d = i + 1, 1
+        i += 1
+        while d and i < len(inc):
+            d += {'{': 1, '}': -1}.get(inc[i], 0)
+            i += 1
+        body = inc[s:i - 1]
+        line = inc.count('\n', 0, start) + 1
+        hits = []
+        for g in gens:
+            for c in sorted(consuming):
+                if re.search(r'(?<![\w.])%s\s*\.\s*%s\s*\(' % (re.escape(g), c), body) or re.search(r'(?<![\w.])%s\s*\(\s*%s\s*[,)]' % (c, re.escape(g)), body):
+                    hits.append((g, c))
+        n += 1
+        ok = not hits
+        r5.inst({'fn': name, 'generator_parameters': gens, 'consumed_by': ['%s.%s()' % h for h in hits]}, ok=ok, kind=(name, params))
+        for g, c in hits:
+            r5.fail('include/%s/%s' % (name, c), 'src/builtin/include.rs:%d' % line, 'the library function %s returns a generator but applies %s() to its generator parameter `%s`: the whole source is consumed when the result is built, so an infinite (or long) source is never lazy' % (name, c, g))
+    r5.need(4)
